@@ -201,6 +201,12 @@ def df_case(rec, seedt):
 
 
 def grid(rng, kind, n):
+    if kind == "stitched" and n >= 6:
+        # two spectra joined at a junction frequency that both contain (a repeated grid value:
+        # a zero-width trapezoid); the ASD generally differs on the two samples
+        k = int(rng.integers(2, n - 2))
+        f = np.sort(rng.uniform(0.1, 50.0, size=n - 1))
+        return np.concatenate([f[:k], [f[k - 1]], f[k:]])
     if kind in ("notched", "zoomed", "symmetric") and n >= 6:
         # grids that look uniform from their first and last steps but are not
         f = np.arange(n, dtype=float) * 0.5 + 1.0
@@ -236,7 +242,7 @@ def rms_case(rec, seedt):
     rng = gen.rng_for(*seedt)
     n = int(rng.choice([1, 2, 3, 10, 200, 3000, 4097, 16385, 65537]))
     f = grid(rng, str(rng.choice(["linear", "log", "plan", "random", "notched", "zoomed",
-                                  "symmetric"])), n)
+                                  "symmetric", "stitched"])), n)
     n = len(f)
     akind = str(rng.choice(["flat", "power", "random", "zeros", "steep-red", "steep-blue"]))
     if akind == "flat":
